@@ -112,4 +112,52 @@ CHECKS = {
        'sibling directories is searched in responses.',
   note='No absence claim; touches inside C libraries without audit events (sqlite journals, PROJ) are not seen; POSIX only; one fixed deployment (no authorization, no S3/Redis/CouchDB/Azure backends). '
        'os.stat probes outside the roots are counted, not judged.'),
+ 'C06': dict(
+  category='fault_enumeration',
+  design_ref='DESIGN.md section 7',
+  technique='Hypothesis-generated store histories + raw FileIO/os-level operation recorder (fsrec) + exhaustive crash-prefix and page-boundary torn-write re-materialisation + old/new/missing equality oracle + restart re-store + strace cross-check (thorough)',
+  text='For each generated store (file cache in all link modes / layouts / dimensions, compact v1/v2 store, batch and remove, legend store, seed progress write) the raw syscall-level operation '
+       'list is recorded and EVERY prefix plus every 4096-byte-boundary cut of every write is materialised and read back by a fresh cache object (old or new bytes, missing only where the '
+       'statement allows it, other addresses unchanged, no exception), followed by a repeat of the store on the crashed directory (a stale lock must not block it). Exhaustive per case over the '
+       'process-death crash model; the cases themselves are sampled (about 3.2k stores / 96k crash states quick, 64k stores thorough).',
+  note='Fault enumeration is complete per store under the process-death model (completed syscalls persist, no reordering). Power-loss reordering, concurrent writers and sub-page tears are '
+       'not claimed (sub-page tears are counted as statistics only). Two open known findings are tolerated by exact construct and demonstrated by regression cases.'),
+ 'C08': dict(
+  category='exploration',
+  design_ref='DESIGN.md section 9',
+  technique='deterministic cooperative scheduling of real threads (detsched) with DFS preemption bounding and Hypothesis-generated sparse schedules; ground-function upstream; response / final-cache / upstream-count / cross-blocking / deadlock oracles',
+  text='Real TileManager / TileCreator / TileLocker / FileLock code on real file and sqlite caches runs under a harness-owned scheduler with yield points at cache reads and writes, lock '
+       'attempts and releases, and upstream calls. Every schedule with <=3 (single tile) / <=2 (other 2-requester configurations) preemptions is enumerated for 14 configurations (<=4 / <=3 '
+       'in thorough); Hypothesis additionally explores 2-6 requesters across thread and multi-process style deployments and the meta-tiling variants (meta tiles, buffers, minimised, bulk, '
+       'two caches on one lock directory, concurrent_tile_creators 2).',
+  note='Exhaustive within the preemption bound for the listed 2-requester scopes only. "Processes" are threads with separate manager, cache and locker objects; one lock attempt is an atomic '
+       'step (the lock-file race is C07). Interleavings inside sqlite, Pillow or the kernel are not explored; liveness is bounded deadlock-freedom.'),
+ 'C11': dict(
+  category='exploration',
+  design_ref='DESIGN.md section 12',
+  technique='Hypothesis-generated configurations through the real mapproxy.yaml / seed.yaml loaders; in-process seed() with recorder pool and virtual clock; exact-rational flat reference enumeration (refgrid + shapely); metamorphic resume relation over all interruption points; root-cause classifier for missing tiles',
+  text='~5000 generated seed configurations per quick run are built by the real loaders and run through the real seed() / TileWalker / ProgressLog / ProgressStore (only the worker pool is a '
+       'recorder, the clock is virtual). Handed meta tiles are compared with a flat exact-rational enumeration of required and forbidden tiles, and every interruption point of every task is '
+       'judged against a really continued run from the progress file as it was at that point.',
+  note='All interruption points per task (continued runs once per distinct progress state, <= 40; real interrupted runs for all k when <= 30 calls, 16 sampled above). "Work done" = tiles handed '
+       'to the pool. Tiles overlapped by <= 0.1 px are not judged. One open known finding (ancestor-grid-gap) is excused tile by tile and counted.'),
+ 'C12': dict(
+  category='exploration',
+  design_ref='DESIGN.md section 13',
+  technique='Hypothesis-generated configurations and cache contents through the real loaders and backends; specification oracle plus differential comparison of the three cleanup strategies; file-system snapshot for bystanders',
+  text='Generated cleanup scenarios (12 backends x 7 grid kinds x remove_all / remove_before forms x level selections x full extent or bbox / polygon / multi-coverage) are built through the real '
+       'mapproxy.yaml / seed.yaml loaders, filled through the real backends with tiles of generated ages, and the real cleanup() result is compared with a specification of what must be removed '
+       'and what must be kept, including planted bystanders (other levels, sibling cache, single_color_tiles, lock dir, unrelated files). Full-extent runs are repeated with an all-covering '
+       'coverage so that directory walk, bulk delete and tile walk are compared on identical contents.',
+  note='About 14k scenarios per quick run. The +-1 s age band and the <= 0.1 px coverage-touch band are accepted either way. Dimension caches, dry_run, --continue and remote backends are not covered.'),
+ 'C18': dict(
+  category='exploration',
+  design_ref='DESIGN.md section 19',
+  technique='grammar-based property testing (Hypothesis) + (thorough) coverage-guided fuzzing (atheris) with WSGI-response, image decode/type/size, XML structure-whitelist, marker-injection and leak oracles',
+  text='One application with every service (WMS 1.0.0-1.3.0, WMTS KVP/REST, TMS, KML, demo) is driven with a Hypothesis grammar over all known paths and parameters with per-parameter '
+       'mutation (missing, duplicated, empty, huge, wrong type, non-ASCII, control characters, a unique markup marker), hostile headers (Host, X-Forwarded-*, X-Script-Name, conditional headers) '
+       'and drawn upstream behaviour (ok / error / non-image / wrong size). Every answer is checked: WSGI response rules, image decodes with the declared type and requested size, XML well-formed '
+       'with element names from the fixed template sets, marker only as escaped text in XML/HTML, no traceback or server path. Thorough adds an atheris byte-level campaign.',
+  note='Catch-all 500 "internal error" pages are accepted as complete responses (counted by exception class); upstream lies passed through unchanged are not judged; element whitelists in '
+       'markup.py were copied from the 4.0.2 templates; JS-string-context injection in demo pages is not detected.'),
 }
